@@ -421,7 +421,9 @@ func execQuery(world []*Obj, op *Op, qs *Queries) Ans {
 		return Ans{b2u(o.Poly.Contains(world[op.Obj2].Poly))}
 	case QRelIntersects:
 		if o.Kind == OLoop {
-			return Ans{b2u(o.Loop.Intersects(world[op.Obj2].Loop))}
+			// (with the other read-only loop-to-loop questions; ContainsNested looks a vertex up in the index)
+			b := world[op.Obj2].Loop
+			return Ans{b2u(o.Loop.Intersects(b)), b2u(o.Loop.ContainsNested(b)), b2u(o.Loop.BoundaryEqual(b)), b2u(o.Loop.Equal(b))}
 		}
 		return Ans{b2u(o.Poly.Intersects(world[op.Obj2].Poly))}
 	case QContainingShapes:
